@@ -5,7 +5,7 @@
    states, class definitions and indices only.  Tests, not theorems. *)
 From Coq Require Import List Arith ZArith Bool Lia.
 Import ListNotations.
-Require Import FV.Gen.C09 FV.C09.Model FV.C09.Lemmas FV.C09.Refuted.
+Require Import FV.Gen.C09 FV.C09.Model FV.C09.Lemmas FV.C09.Remerge FV.C09.Refuted.
 Require Import FV.C09.CmdModel FV.C09.CmdLemmas FV.C09.CmdFrame.
 Require Import FV.C09.PropModel FV.C09.PropLemmas FV.C09.PropChain FV.C09.Properties.
 
@@ -86,70 +86,96 @@ Proof.
   intro H. vm_compute in H. discriminate H.
 Qed.
 
-(* a definition with a non-empty datatype footprint: C(B): p = 3 on B(A): p = Parameter(max=5) *)
-Definition sL2 : state := run [cA; modcls [1; 0] [(1, par None None None (Some 5%Z) None)]].
-Definition dC : cdef := body_of (modcls [2; 1; 0] [(1, EValue 3%Z)]).
+Ltac nv_cases H :=
+  vm_compute in H;
+  repeat match type of H with
+         | _ \/ _ => destruct H as [H|H]
+         | False => contradiction
+         end.
+Ltac nv_acc_ok := split; [lt_c | intros j E; vm_compute in E; injection E as E; subst j; lt_c].
+Ltac nv_stable := split; [intros dd E; vm_compute in E; injection E as E; subst dd; lt_c | vm_compute; reflexivity].
 
-(* (6) premise: every accessible of c is in range and either untouched or re-merged to the same content.
+(* (6) premise (input side only): every accessible of c is in range and either untouched, or the definition writes to
+   no datatype object in place and every merge of the object in the ghost log is a re-merge (stable_remerge in s).
    (a) left disjunct, with a non-empty footprint: Y2 and A are untouched by the definition of Z *)
 Example C09_define_frame_applies_untouched :
   describe_class (define sD diamond_Z) (nth 2 (classes sD) cls0) = describe_class sD (nth 2 (classes sD) cls0) /\
   describe_class sD (nth 2 (classes sD) cls0) <> [].
 Proof.
   split.
-  - apply C09_define_frame_except_inplace_writes. intros k i H. vm_compute in H. destruct H as [H|[]].
-    injection H as Hk Hi. subst k i. split.
-    + split; [lt_c|]. intros j E. vm_compute in E. injection E as E. subst j. lt_c.
-    + left. split; [notin|]. intros j E. vm_compute in E. injection E as E. subst j. notin.
+  - apply C09_define_frame_except_inplace_writes. intros k i H. nv_cases H.
+    injection H as Hk Hi. subst k i. split; [nv_acc_ok|].
+    left. split; [notin|]. intros j E. vm_compute in E. injection E as E. subst j. notin.
   - intro H. vm_compute in H. discriminate H.
 Qed.
 
-(* (b) right disjunct: `class D(A): pass` re-merges the object of A (footprint [0]) to the same content *)
+(* (b) right disjunct: `class D(A): pass` re-merges the object of A (footprint [0], log [(0, own properties of A.p)])
+   and the content of A.p in the state BEFORE the definition is a fixed point of that merge *)
 Definition sA : state := run [cA].
 Definition dPass : cdef := body_of (modcls [1; 0] []).
 
 Example C09_define_frame_applies_remerged :
   describe_class (define sA dPass) (nth 0 (classes sA) cls0) = describe_class sA (nth 0 (classes sA) cls0) /\
-  fst (footprint sA dPass) = [0] /\ c_acc (nth 0 (classes sA) cls0) = [(1, 0)].
+  fst (footprint sA dPass) = [0] /\ c_acc (nth 0 (classes sA) cls0) = [(1, 0)] /\ map fst (merge_log sA dPass) = [0].
 Proof.
-  split; [|vm_compute; split; reflexivity].
-  apply C09_define_frame_except_inplace_writes. intros k i H. vm_compute in H. destruct H as [H|[]].
-  injection H as Hk Hi. subst k i. split.
-  - split; [lt_c|]. intros j E. vm_compute in E. injection E as E. subst j. lt_c.
-  - right. vm_compute. reflexivity.
+  split; [|vm_compute; repeat split; reflexivity].
+  apply C09_define_frame_except_inplace_writes. intros k i H. nv_cases H.
+  injection H as Hk Hi. subst k i. split; [nv_acc_ok|].
+  right. split; [vm_compute; reflexivity|]. intros M H. nv_cases H. injection H as HM. subst M. nv_stable.
 Qed.
 
-(* (7) premises: the footprint lies beyond the existing heap, the accessibles of c are in range.
-   NOTE (narrow, not empty): F(E) above does NOT satisfy the first premise -- the accessible `mode` it inherits without
-   overriding it is re-merged in place (footprint [1; 2], 1 = the object of E).  The premise holds exactly for the
-   definitions that override EVERY inherited accessible (by a Parameter, a bare value or by None) or inherit none:
-   G(E): p = Parameter(max=5); mode = 1 writes to its own new objects only; c = E with its two accessibles *)
+(* (c) both disjuncts in one application: F(E): p = Parameter(max=5) overrides p by an own object and inherits mode
+   without overriding it.  c = E: its object 0 (p) is untouched, its object 1 (mode) is re-merged (footprint [1; 2]) *)
 Definition sE : state := run [cE].
 Definition cG : op := modcls [1; 0] [(1, par None None None (Some 5%Z) None); (3, EValue 1%Z)].
 
-Example C09_nv_self_contained_is_narrow :
-  fst (footprint sE (body_of cF)) = [1; 2] /\ length (params sE) = 2 /\ fst (footprint sE (body_of cG)) = [2].
-Proof. vm_compute. repeat split. Qed.
+Example C09_define_frame_applies_inherited :
+  describe_class (define sE (body_of cF)) (nth 0 (classes sE) cls0) = describe_class sE (nth 0 (classes sE) cls0) /\
+  fst (footprint sE (body_of cF)) = [1; 2] /\ length (params sE) = 2 /\ c_acc (nth 0 (classes sE) cls0) = [(1, 0); (3, 1)].
+Proof.
+  split; [|vm_compute; repeat split; reflexivity].
+  apply C09_define_frame_except_inplace_writes. intros k i H. nv_cases H; injection H as Hk Hi; subst k i.
+  - split; [nv_acc_ok|]. left. split; [notin|]. intros j E. vm_compute in E. injection E as E. subst j. notin.
+  - split; [nv_acc_ok|]. right. split; [vm_compute; reflexivity|].
+    intros M H. nv_cases H; [exfalso; injection H; intros; lia | injection H as HM; subst M; nv_stable].
+Qed.
 
+(* (d) the premise is a real restriction: for the class changed by each of the two findings it fails (and only its
+   stable_remerge part fails: C09_guard_exact_diamond, C09_guard_exact_leak in Properties.v) *)
+Example C09_nv_premise_fails_on_findings :
+  (exists M, In (1, M) (merge_log sD diamond_Z) /\ ~ stable_remerge sD 1 M) /\
+  (exists M, In (0, M) (merge_log (run leak_before) leak_D) /\ ~ stable_remerge (run leak_before) 0 M).
+Proof.
+  split; eexists; (split; [vm_compute; left; reflexivity|]); intros [_ H]; vm_compute in H; discriminate H.
+Qed.
+
+(* (7) premises: no datatype object written in place; every merge of an EXISTING object in the log is a re-merge; the
+   accessibles of c are in range.  Not narrow any more: F(E) above (inherits mode without overriding it) satisfies them,
+   and so does G(E): p = Parameter(max=5); mode = 1, which merges its own new object only (second premise empty).
+   The conclusion is for every class, here c = E with its two accessibles; the new class differs from E *)
 Example C09_define_frame_self_contained_applies :
+  describe_class (define sE (body_of cF)) (nth 0 (classes sE) cls0) = describe_class sE (nth 0 (classes sE) cls0) /\
   describe_class (define sE (body_of cG)) (nth 0 (classes sE) cls0) = describe_class sE (nth 0 (classes sE) cls0) /\
-  fst (footprint sE (body_of cG)) <> [] /\ length (c_acc (nth 0 (classes sE) cls0)) = 2 /\
-  describe_class (define sE (body_of cG)) (last (classes (define sE (body_of cG))) cls0) <>
+  fst (footprint sE (body_of cF)) = [1; 2] /\ fst (footprint sE (body_of cG)) = [2] /\
+  length (c_acc (nth 0 (classes sE) cls0)) = 2 /\
+  describe_class (define sE (body_of cF)) (last (classes (define sE (body_of cF))) cls0) <>
   describe_class sE (nth 0 (classes sE) cls0).
 Proof.
-  split; [|split; [|split]].
-  - apply C09_define_frame_self_contained.
-    + intros i H. vm_compute in H. vm_compute. intuition (subst; lia).
-    + intros j H. vm_compute in H. contradiction.
-    + intros k i H. vm_compute in H. destruct H as [H|[H|[]]]; injection H as Hk Hi; subst k i.
-      * split; [lt_c|]. intros j E. vm_compute in E. injection E as E. subst j. lt_c.
-      * split; [lt_c|]. intros j E. vm_compute in E. injection E as E. subst j. lt_c.
-  - intro H. vm_compute in H. discriminate H.
-  - vm_compute. reflexivity.
+  assert (OK : forall k i, In (k, i) (c_acc (nth 0 (classes sE) cls0)) -> acc_ok sE i).
+  { intros k i H. nv_cases H; injection H as Hk Hi; subst k i; nv_acc_ok. }
+  split; [|split; [|split; [|split; [|split]]]]; [ | | vm_compute; reflexivity | vm_compute; reflexivity | vm_compute; reflexivity | ].
+  - apply C09_define_frame_self_contained; [vm_compute; reflexivity | | exact OK].
+    intros i M H L. nv_cases H; injection H as Hi HM; subst i M; first [vm_compute in L; lia | nv_stable].
+  - apply C09_define_frame_self_contained; [vm_compute; reflexivity | | exact OK].
+    intros i M H L. nv_cases H; injection H as Hi HM; subst i M. vm_compute in L. lia.
   - intro H. vm_compute in H. discriminate H.
 Qed.
 
-(* the datatype half of the footprint can be non-empty (so the second premise of (7) is a real restriction) *)
+(* a definition with a non-empty datatype footprint: C(B): p = 3 on B(A): p = Parameter(max=5) *)
+Definition sL2 : state := run [cA; modcls [1; 0] [(1, par None None None (Some 5%Z) None)]].
+Definition dC : cdef := body_of (modcls [2; 1; 0] [(1, EValue 3%Z)]).
+
+(* the datatype half of the footprint can be non-empty (so the first premise of (7) is a real restriction) *)
 Example C09_nv_datatype_footprint : snd (footprint sL2 dC) <> [].
 Proof. intro H. vm_compute in H. discriminate H. Qed.
 
